@@ -224,12 +224,14 @@ class Gen:
       if vs and r.random() < 0.6:
         return ir.V(r.choice(vs))
       self.mark('list_literal')
-      return ('list', tuple(self.gen_expr(t[1], bound, min(depth - 1, 1), False) for _ in range(r.choice([1, 2, 2, 3]))))
+      inner_calls = allow_fcall and r.random() < 0.5       # predicate calls inside a list literal
+      return ('list', tuple(self.gen_expr(t[1], bound, min(depth - 1, 1), inner_calls) for _ in range(r.choice([1, 2, 2, 3]))))
     if t[0] == 'rec':
       if vs and r.random() < 0.6:
         return ir.V(r.choice(vs))
       self.mark('record_literal')
-      return ('rec', tuple((f, self.gen_expr(ft, bound, min(depth - 1, 1), False)) for f, ft in t[1]))
+      inner_calls = allow_fcall and r.random() < 0.5
+      return ('rec', tuple((f, self.gen_expr(ft, bound, min(depth - 1, 1), inner_calls)) for f, ft in t[1]))
     raise ValueError(t)
 
   def gen_cond(self, bound, depth=1):
@@ -407,7 +409,8 @@ class Gen:
       return ('in', ir.V(v), ir.V(lv))
     if x < 0.25 and self.p('lists'):
       v = self.fresh_var(bound)
-      items = tuple(self.gen_expr(t, bound, 1, False) for _ in range(r.choice([1, 2, 2, 3])))
+      inner_calls = r.random() < 0.3
+      items = tuple(self.gen_expr(t, bound, 1, inner_calls) for _ in range(r.choice([1, 2, 2, 3])))
       bound[v] = t
       self.mark('in_literal')
       return ('in', ir.V(v), ('list', items))
@@ -439,7 +442,8 @@ class Gen:
     if x < 0.7 and self.p('lists'):
       v = self.fresh_var(bound)
       lt = ('list', t)
-      e = ('list', tuple(self.gen_expr(t, bound, 1, False) for _ in range(r.choice([1, 2, 3]))))
+      inner_calls = r.random() < 0.4
+      e = ('list', tuple(self.gen_expr(t, bound, 1, inner_calls) for _ in range(r.choice([1, 2, 3]))))
       bound[v] = lt
       self.mark('list_literal')
       return ('cmp', '==', ir.V(v), e)
